@@ -302,6 +302,54 @@ fn point_ops<T: Elem>(c: &mut Ctx, rng: &mut Rng) {
                 let r2 = s.0.get(&T::make(id, g)).is_some();
                 crate::check!(r == present && r2 == present, "{}: contains/get({}) = {}/{}", what, id, r, r2);
             }
+            _ if rng.chance(1, 3) => {
+                // Entry combinators, Debug formatting, From<HashMap<T, ()>>
+                use hashbrown::hash_set::Entry;
+                match rng.below(4) {
+                    0 => {
+                        let e = s.0.entry(T::make(id, g));
+                        e.get().check();
+                        crate::check!(e.get().id() == id, "{}: Entry::get() shows {:?} for {}", what, e.get(), id);
+                        let o = e.insert();
+                        o.get().check();
+                        if !present {
+                            model.insert(id);
+                            gens.insert(id, g);
+                        }
+                    }
+                    1 => {
+                        s.0.entry(T::make(id, g)).or_insert();
+                        if !present {
+                            model.insert(id);
+                            gens.insert(id, g);
+                        }
+                    }
+                    2 => {
+                        let a = format!("{:?}", s.0);
+                        let b = format!("{:?}", s.0.iter()) + &format!("{:?}", s.0.entry(T::make(id, g)));
+                        let other: crate::states::Set<T> = crate::states::Set::with_hasher_in(s.bh(), CkAlloc);
+                        let c2 = format!("{:?} {:?} {:?} {:?}", s.0.union(&other), s.0.intersection(&other), s.0.difference(&other), s.0.symmetric_difference(&other));
+                        crate::check!(!a.is_empty() && !b.is_empty() && !c2.is_empty(), "empty Debug output");
+                        let mut cl = s.0.clone();
+                        let mut d = cl.drain();
+                        d.next();
+                        let _ = format!("{:?}", d);
+                        drop(d);
+                        let mut it = cl.into_iter();
+                        it.next();
+                        let _ = format!("{:?}", it);
+                    }
+                    _ => {
+                        // HashSet::from(HashMap<T, ()>) keeps exactly the keys
+                        let mut m: hashbrown::HashMap<T, (), PlanBH, CkAlloc> = hashbrown::HashMap::with_hasher_in(s.bh(), CkAlloc);
+                        for e in s.0.iter() {
+                            m.insert(T::make(e.id(), e.gen()), ());
+                        }
+                        let from: crate::states::Set<T> = hashbrown::HashSet::from(m);
+                        crate::check!(from == s.0 && s.0 == from, "{}: HashSet::from(HashMap) != the set it was built from", what);
+                    }
+                }
+            }
             _ => {
                 use hashbrown::hash_set::Entry;
                 match s.0.entry(T::make(id, g)) {
@@ -316,6 +364,7 @@ fn point_ops<T: Elem>(c: &mut Ctx, rng: &mut Rng) {
                     }
                     Entry::Vacant(v) => {
                         crate::check!(!present, "{}: entry({}) Vacant for a present value", what, id);
+                        v.get().check();
                         if rng.chance(1, 2) {
                             v.insert();
                             model.insert(id);
